@@ -42,7 +42,15 @@ impl<'a> BerDecoder<'a> for SnmpOid<'a> {
 
     // Implement X.690 pp 8.19: Encoding of an object identifier value
     fn decode(i: &'a [u8], h: &BerHeader) -> SnmpResult<Self> {
-        Ok(SnmpOid(Cow::Borrowed(&i[..h.length])))
+        let v = &i[..h.length];
+        // 8.19.2: bit 8 of the last octet of a subidentifier is zero,
+        // so the contents never end in the middle of a subidentifier
+        if let Some(last) = v.last() {
+            if *last & 0x80 != 0 {
+                return Err(SnmpError::InvalidData);
+            }
+        }
+        Ok(SnmpOid(Cow::Borrowed(v)))
     }
 }
 
